@@ -20,6 +20,8 @@ namespace h
 size_t g_max_workers = 1; ///< upper bound on the workers of a pool (pool_t::max_size())
 int    g_sched       = 0; ///< 0 round-robin, 1 all tasks on the last worker, 2 reversed round-robin, 3 arbitrary (symbolic choice)
 long   g_tasks_run   = 0; ///< tasks executed by the sequentialised scheduler
+long   g_drains      = 0; ///< non-empty drains (one per map() call that took the enqueue path)
+long   g_arb_drain   = -1; ///< sched 3: -1 = arbitrary choice in every drain, k >= 0 = only in the k-th drain (others round-robin)
 struct pool_entry_t
 {
     queue_t* queue;
@@ -60,6 +62,9 @@ void section_t::block(const bool raise)
         auto*  queue   = h::g_pools[p].queue;
         auto   workers = h::g_pools[p].workers;
         size_t k       = 0;
+        const bool nonempty = !queue->m_tasks.empty();
+        const long drain    = h::g_drains;
+        if (nonempty) ++h::g_drains;
         while (!queue->m_tasks.empty())
         {
             auto task = std::move(queue->m_tasks.front());
@@ -69,7 +74,10 @@ void section_t::block(const bool raise)
             {
             case 1: tnum = workers - 1; break;
             case 2: tnum = workers - 1 - (k % workers); break;
-            case 3: tnum = static_cast<size_t>(sym_choose(sym_nm("worker", h::g_tasks_run).c_str(), static_cast<int>(workers))); break;
+            case 3:
+                if (h::g_arb_drain < 0 || h::g_arb_drain == drain) tnum = static_cast<size_t>(sym_choose(sym_nm("worker", h::g_tasks_run).c_str(), static_cast<int>(workers)));
+                else tnum = k % workers;
+                break;
             default: tnum = k % workers; break;
             }
             ++k;
